@@ -17,6 +17,7 @@ INJECT = {
     'in_subscription.rs': 'src/subscription.rs',
     'in_stream_controller.rs': 'src/internals/stream_controller.rs',
     'in_subject.rs': 'src/subjects/subject.rs',
+    'in_rx_error.rs': 'src/rx_error.rs',
 }
 
 
